@@ -281,6 +281,7 @@ pub trait TypedIterable {
             let packet = &mut self.parsed_packet_mut().packet_mut();
             packet[offset..offset + new_name_len].copy_from_slice(name);
         }
+        self.parsed_packet_mut().cached = None;
         self.recompute_rr();
 
         Ok(())
@@ -315,6 +316,7 @@ pub trait TypedIterable {
         self.set_offset_next(offset);
         self.invalidate();
         let parsed_packet = self.parsed_packet_mut();
+        parsed_packet.cached = None;
         if is_opt {
             // the EDNS summary described the record that has just been removed
             parsed_packet.offset_edns = None;
